@@ -12,7 +12,7 @@ from native import mdibtools as mt
 
 KINDS = ('metric', 'alert', 'component', 'operational', 'context', 'location', 'rt', 'descr_update', 'descr_create',
          'descr_delete', 'descr_recreate', 'descr_create_siblings', 'descr_delete_siblings', 'mixed_descr_and_state',
-         'entity_state', 'entity_context', 'entity_descriptor', 'stale_entity')
+         'entity_state', 'entity_context', 'entity_descriptor', 'stale_entity', 'descr_update_context')
 
 
 class History:
@@ -198,6 +198,20 @@ class History:
             st = tr.get_state(b_)
             st.ActivationState = self.rnd.choice(list(pm_types.ComponentActivation))
         return [a, b_]
+
+    def do_descr_update_context(self):
+        """Update a context descriptor that owns at least two context states (all of them are reported with it)."""
+        descr = [d for d in self.mdib.descriptions.objects if d.NODETYPE == pm.PatientContextDescriptor]
+        if not descr:
+            return self.do_descr_update()
+        d = descr[0]
+        while len(self.mdib.context_states.descriptor_handle.get(d.Handle, [])) < 2:
+            with self.mdib.context_state_transaction() as tr:
+                st = tr.mk_context_state(d.Handle)
+                st.CoreData.Givenname = 'Extra%d' % self.counter
+        with self.mdib.descriptor_transaction() as tr:
+            tr.get_descriptor(d.Handle).SafetyClassification = self.rnd.choice(list(pm_types.SafetyClassification))
+        return [d.Handle]
 
     # -- entity interface --------------------------------------------------------------------------------------
     def do_entity_state(self):
